@@ -1,8 +1,206 @@
+/-
+Driver mode c17 (see harness/c17.cpp for the case format).
+Per graph case:
+  * SPECFAIL  if a C++ matrix (johnsons, dijkstra, floyd_warshall) is rejected by the verified
+              checker `checkApsp` (message `alg=<name> reason=… `), if the three disagree, or if
+              readLinearD()/readLinearG() differ from idealLength × certified distances / the
+              documented classes 0/1/2;
+  * DIVERGE   if the Lean models (`floydWarshall`, `johnsons selMin`) differ from the C++ matrices,
+              or a pairing-heap operation sequence returns keys in another order than a multiset.
+johnsons / dijkstra / layout are examined before floyd_warshall so that a floyd_warshall failure
+never hides a failure of the others in the same case.
+-/
 import Driver.Proto
+import AdaptaVerif.Model.ShortestPaths
+import AdaptaVerif.Check.Apsp
 namespace Driver.C17
+open Driver AdaptaVerif.Num AdaptaVerif.Model.ShortestPaths AdaptaVerif.Check.Apsp
 
-def run (_args : List String) : IO UInt32 := do
-  IO.eprintln "driver mode c17: not implemented yet"
-  return 2
+/-- `DBL_MAX = (2^53 - 1) · 2^971` -/
+def dblMax : Rat := (((2 ^ 53 - 1) * 2 ^ 971 : Nat) : Rat)
+
+def toDist (x : Rat) : Dist := if x == dblMax then none else some x
+
+/-- rows `key i v0 v1 …` → matrix (rows must come in order, each with `n` entries) -/
+def parseMat (c : Case) (key : String) (n : Nat) : Option Mat := do
+  let rows := c.get key
+  if rows.size != n then none
+  let mut M : Mat := #[]
+  for r in rows do
+    if r.size != n + 1 then none
+    if nat! r[0]! != M.size then none
+    let vals ← nums? (r.extract 1 r.size)
+    M := M.push (vals.map toDist)
+  return M
+
+def parseNatMat (c : Case) (key : String) (n : Nat) : Option (Array (Array Nat)) := do
+  let rows := c.get key
+  if rows.size != n then none
+  let mut M : Array (Array Nat) := #[]
+  for r in rows do
+    if r.size != n + 1 then none
+    M := M.push ((r.extract 1 r.size).map nat!)
+  return M
+
+def matEq (n : Nat) (A B : Mat) : Option (Nat × Nat) := Id.run do
+  for i in [0:n] do
+    for j in [0:n] do
+      if A.get i j != B.get i j then return some (i, j)
+  return none
+
+/-- `|a - b| ≤ 1e-9 · max(|a|,|b|)` -/
+def closeRel (a b : Rat) : Bool :=
+  let m := if absRat a < absRat b then absRat b else absRat a
+  absRat (a - b) ≤ m / 1000000000
+
+structure Parsed where
+  n : Nat
+  es : List (Nat × Nat)
+  ws : List Rat
+  lens : List Rat
+  unit : Bool
+  nolens : Bool
+  ideal : Rat
+
+def parseGraph (c : Case) : Option Parsed := do
+  let n := nat! ((← c.get1 "n")[0]!)
+  let unit := nat! ((← c.get1 "unit")[0]!) == 1
+  let nolens := nat! ((← c.get1 "nolens")[0]!) == 1
+  let ideal ← num? ((← c.get1 "ideal")[0]!)
+  let mut es : Array (Nat × Nat) := #[]
+  let mut ws : Array Rat := #[]
+  let mut lens : Array Rat := #[]
+  for l in c.get "e" do
+    if l.size != 4 then none
+    es := es.push (nat! l[0]!, nat! l[1]!)
+    ws := ws.push (← num? l[2]!)
+    lens := lens.push (← num? l[3]!)
+  return { n, es := es.toList, ws := ws.toList, lens := lens.toList, unit, nolens, ideal }
+
+def hasLoop (es : List (Nat × Nat)) : Bool := es.any fun e => e.1 == e.2
+def hasParallel (es : List (Nat × Nat)) : Bool := Id.run do
+  let norm := (es.filter fun e => e.1 != e.2).map fun e => if e.1 ≤ e.2 then e else (e.2, e.1)
+  let mut seen : List (Nat × Nat) := []
+  for e in norm do
+    if seen.contains e then return true
+    seen := e :: seen
+  return false
+
+def checkGraph (c : Case) : CaseResult := Id.run do
+  let some p := parseGraph c | return { verdict := .diverge "unparsable case header" }
+  let n := p.n
+  let g : Graph := { n := n, edges := List.zipWith (fun e w => (e.1, e.2, if p.unit then 1 else w)) p.es p.ws }
+  let some FW := parseMat c "fw" n | return { verdict := .diverge "unparsable fw matrix" }
+  let some JO := parseMat c "jo" n | return { verdict := .diverge "unparsable jo matrix" }
+  let some DJ := parseMat c "dj" n | return { verdict := .diverge "unparsable dj matrix" }
+  let some LD := parseMat c "ld" n | return { verdict := .diverge "unparsable ld matrix" }
+  let some LG := parseNatMat c "lg" n | return { verdict := .diverge "unparsable lg matrix" }
+  let loops := hasLoop p.es
+  let par := hasParallel p.es
+  let nInf := (List.range n).foldl (fun a i => (List.range n).foldl (fun a j => if (JO.get i j).isNone then a + 1 else a) a) 0
+  let zeroW := g.edges.any fun e => e.2.2 == 0
+  let mut stats : List (String × Nat) :=
+    [("n.le4", if n ≤ 4 then 1 else 0), ("n.5to12", if 4 < n ∧ n ≤ 12 then 1 else 0),
+     ("n.13to40", if 12 < n ∧ n ≤ 40 then 1 else 0), ("n.gt40", if 40 < n then 1 else 0),
+     ("graph.selfloop", if loops then 1 else 0), ("graph.parallel", if par then 1 else 0),
+     ("graph.disconnected", if nInf > 0 then 1 else 0), ("graph.zeroweight", if zeroW then 1 else 0),
+     ("graph.unitweights", if p.unit then 1 else 0), ("layout.nolens", if p.nolens then 1 else 0),
+     ("layout.nonpositive", if !p.nolens && p.lens.any (· ≤ 0) then 1 else 0),
+     ("edges", g.edges.length), ("pairs", n * n)]
+  let nontrivial := g.edges.length > 0 && n ≥ 2
+  let fail (v : Verdict) : CaseResult := { verdict := v, nontrivial := nontrivial, stats := stats }
+  -- 1. johnsons, dijkstra against the verified checker
+  if !checkApsp g JO.get then return fail (.specfail s!"alg=johnsons {explain g JO.get}")
+  if !checkApsp g DJ.get then return fail (.specfail s!"alg=dijkstra {explain g DJ.get}")
+  if let some (i, j) := matEq n JO DJ then
+    return fail (.specfail s!"alg=johnsons-vs-dijkstra reason=disagree i={i} j={j} johnsons={showDist (JO.get i j)} dijkstra={showDist (DJ.get i j)}")
+  -- 2. layout matrices: certified distances of the length-corrected graph, scaled
+  let lg := layoutGraph n p.es (if p.nolens then none else some p.lens)
+  let MJ := johnsons selMin lg
+  if !checkApsp lg MJ.get then
+    return fail (.diverge s!"model johnsons on the layout graph is not exact: {explain lg MJ.get}")
+  for i in [0:n] do
+    for j in [0:n] do
+      let want := scaleEntry p.ideal i j (MJ.get i j)
+      let got := LD.get i j
+      let ok := match want, got with
+        | none, none => true
+        | some a, some b => closeRel a b
+        | _, _ => false
+      if !ok then
+        return fail (.specfail s!"alg=layoutD reason=not-ideal-times-distance i={i} j={j} readLinearD={showDist got} expected={showDist want}")
+      if i != j then
+        let wantG := layoutGEntry p.es MJ i j
+        if wantG != some ((LG[i]!)[j]!) then
+          return fail (.specfail s!"alg=layoutG reason=class i={i} j={j} readLinearG={(LG[i]!)[j]!} expected={wantG}")
+  -- 3. model correspondence for johnsons / dijkstra (DIVERGE only)
+  let MD := johnsons selMin g
+  if let some (i, j) := matEq n MD JO then
+    return fail (.diverge s!"model dijkstra/johnsons differs from C++ johnsons at i={i} j={j}: model {showDist (MD.get i j)} impl {showDist (JO.get i j)}")
+  -- 4. floyd_warshall last
+  let mut modelNote := ""
+  let mut modelDiverges := false
+  if n ≤ 64 then
+    let MF := floydWarshall g
+    let MF' := floydWarshallFixed g
+    let eqO := (matEq n MF FW).isNone
+    let eqF := (matEq n MF' FW).isNone
+    stats := stats ++ [("fwmodel.compared", 1), ("fwmodel.agrees-as-coded", if eqO then 1 else 0),
+      ("fwmodel.agrees-repaired", if eqF then 1 else 0),
+      ("fwmodel.as-coded-and-repaired-differ", if (matEq n MF MF').isSome then 1 else 0)]
+    modelNote := if eqO then " model-as-coded=agrees" else if eqF then " model-repaired=agrees" else " model=differs"
+    modelDiverges := !eqO && !eqF
+  if !checkApsp g FW.get then
+    let cls := if loops && par then "selfloop+parallel" else if loops then "selfloop" else if par then "parallel" else "simple"
+    return { verdict := .specfail s!"alg=floyd_warshall graphclass={cls} {explain g FW.get}{modelNote}", nontrivial := nontrivial, stats := stats }
+  if let some (i, j) := matEq n FW JO then
+    return { verdict := .specfail s!"alg=floyd_warshall-vs-johnsons reason=disagree i={i} j={j}", nontrivial := nontrivial, stats := stats }
+  if modelDiverges then
+    return { verdict := .diverge "model floyd_warshall (neither the as-coded nor the repaired initialisation) differs from C++", nontrivial := nontrivial, stats := stats }
+  return { verdict := .ok, nontrivial := nontrivial, stats := stats }
+
+/-! pairing heap operation sequences against a multiset -/
+
+/-- extraction of item `id` with key `k` is legal iff `id` is live with key `k` and no live key is smaller -/
+def extractOk (live : List (Nat × Rat)) (id : Nat) (k : Rat) : Bool :=
+  live.contains (id, k) && live.all fun x => decide (k ≤ x.2)
+
+def checkHeap (c : Case) : CaseResult := Id.run do
+  let mut live : List (Nat × Rat) := []
+  let mut next := 0
+  let mut nops := 0
+  let mut nx := 0
+  let outs := c.get "x"
+  for l in c.get "h" do
+    nops := nops + 1
+    let op := l[0]!
+    if op == "i" || op == "j" then
+      let some k := num? l[1]! | return { verdict := .diverge "unparsable key" }
+      live := (next, k) :: live
+      next := next + 1
+    else if op == "m" || op == "z" then
+      let mut todo := if op == "m" then 1 else live.length
+      if op == "z" && outs.size != nx + todo then
+        return { verdict := .diverge s!"PairingHeap: drained {outs.size - nx} items, multiset model holds {todo}" }
+      while todo > 0 do
+        todo := todo - 1
+        let some o := outs[nx]? | return { verdict := .diverge s!"PairingHeap: missing extraction #{nx}" }
+        let some k := num? o[0]! | return { verdict := .diverge "unparsable key" }
+        let id := nat! o[1]!
+        if !extractOk live id k then
+          return { verdict := .diverge s!"PairingHeap: extraction #{nx} returned item {id} key {ratToString k}, not a minimum of the multiset {live.map fun x => (x.1, ratToString x.2)}" }
+        live := live.filter fun x => x.1 != id
+        nx := nx + 1
+    else if op == "d" then
+      let id := nat! l[1]!
+      let some k := num? l[2]! | return { verdict := .diverge "unparsable key" }
+      live := live.map fun x => if x.1 == id then (id, k) else x
+    else pure ()
+  if nx != outs.size then
+    return { verdict := .diverge s!"PairingHeap: {outs.size} extractions, multiset model {nx}" }
+  return { verdict := .ok, nontrivial := nx > 1, stats := [("heap.ops", nops), ("heap.extractions", nx)] }
+
+def run (_args : List String) : IO UInt32 :=
+  runCases (fun c => if c.tag == "heap-ops" then checkHeap c else checkGraph c)
 
 end Driver.C17
